@@ -403,10 +403,131 @@ CORPUS: List[Dict[str, Any]] = [
 ]
 
 
+LATS = [0, 0, 0, 0, 125, 250, 1000, 5000, 19875, 30000, 59875, 60000, 61000, 120000, 121000, 130000, 300000]
+CALM_LATS = [0, 0, 0, 125, 250, 1000, 5000, 14875]
+TMOS = [61, 61, 62, 90, 120, 121, 150, 300, 540, 600, 1800, "inf", "abs"]
+WAITS = [125, 1000, 10125, 59875, 60000, 61000, 100125, 300000, 480000, 1000000, 3600000, 7200000]
+
+
+def rand_tmo(rng):
+    return rng.choice(TMOS) if rng.random() < 0.8 else rng.randrange(61, 1801)
+
+
+def rand_recipe(rng, calm: bool) -> Dict[str, Any]:
+    profile = rng.choice(["dmr", "igd"])
+    inter = list(INTERESTING[profile])
+    rng.shuffle(inter)
+    k = rng.choice([0, 1, 1, 2, 2, 3, 3, 4])
+    services = inter[:k] + rng.sample(["X1", "X2"], rng.choice([0, 0, 1, 2]))
+    rng.shuffle(services)
+    n = max(k, 1)
+    script = []
+    for _ in range(rng.randrange(0, 40)):
+        if calm:
+            reac = "ok" if rng.random() < 0.85 else "new"
+            lat = rng.choice([l for l in CALM_LATS if l * n < 60000])
+        else:
+            reac = rng.choices(["ok", "new", "refuse", "unreach", "comm"], [62, 8, 12, 9, 9])[0]
+            lat = rng.choice(LATS) if rng.random() < 0.9 else 125 * rng.randrange(0, 2400)
+        script.append([reac, rand_tmo(rng), lat])
+    default = ["ok", rand_tmo(rng), rng.choice([0, 0, 125, 1000]) if not calm else 0]
+    fast = isinstance(default[1], int) and default[1] <= 150   # a renewal round every few seconds: keep the timeline short
+    ops: List[List[Any]] = []
+    for _cycle in range(rng.choice([1, 1, 2, 3])):
+        ops.append(["sub", 1 if rng.random() < 0.85 else 0])
+        for _ in range(rng.randrange(0, 5)):
+            w = rng.choice(WAITS) if rng.random() < 0.7 else 125 * rng.randrange(1, 30000)
+            if fast:
+                w = min(w, 600000)
+            ops.append(["wait", w])
+            if rng.random() < 0.1:
+                ops.append(["sub", 1])      # only effective when everything was lost in between
+        if rng.random() < 0.85:
+            ops.append(["unsub"])
+            if rng.random() < 0.6:
+                ops.append(["wait", rng.choice(WAITS)])
+    return {"profile": profile, "services": services, "script": script, "default": default, "ops": ops}
+
+
+def event_times(case: Case) -> List[int]:
+    """distinct virtual times at which something happens in the trace (request arrivals, reply arrivals)"""
+    ts = set()
+    for ln in case.lines:
+        tk = ln.split()
+        if tk[:2] == ["o", "req"]:
+            ts.add(int(tk[2]))
+            ts.add(int(tk[2]) + int(tk[8]))
+        elif tk[:2] == ["o", "cb"]:
+            ts.add(int(tk[2]))
+    return sorted(ts)
+
+
+def unsub_points(ctx: Ctx, rec: Dict[str, Any], cid: str, horizon: int, max_points: int) -> List[Case]:
+    """`sub auto; wait horizon` and, for every distinct event time of that run, unsubscribe just before / at /
+    just after it (every point relative to the in-flight requests)"""
+    base = {**rec, "ops": [["sub", 1], ["wait", horizon]]}
+    c0 = run_recipe(ctx, base, cid + "b")
+    out = [c0]
+    t0 = None
+    for ln in c0.lines:
+        tk = ln.split()
+        if tk[:2] == ["o", "ret"]:
+            t0 = int(tk[2])
+            break
+    if t0 is None:
+        return out
+    pts = []
+    for t in event_times(c0):
+        for d in (-125, 0, 125):
+            if t + d - t0 > 0 and t + d - t0 <= horizon:
+                pts.append(t + d - t0)
+    pts = sorted(set(pts))
+    if len(pts) > max_points:
+        pts = sorted(ctx.rng.sample(pts, max_points))
+    for j, w in enumerate(pts):
+        r = {**rec, "ops": [["sub", 1], ["wait", w], ["unsub"], ["wait", 700000], ["sub", 1], ["wait", 200000], ["unsub"]]}
+        c = run_recipe(ctx, r, f"{cid}u{j}")
+        c.tags.append("gen:unsub-point")
+        out.append(c)
+    return out
+
+
+def _worker(args) -> List[Case]:
+    seed, tier, kind, idx, count = args
+    from vk import core
+    core.activate_repo()
+    import random
+    ctx = Ctx("C12", tier, seed, core.VERIF / ".work", 0.0, random.Random(seed * 7919 + idx * 104729 + (1 if kind == "u" else 0)))
+    out: List[Case] = []
+    for j in range(count):
+        calm = ctx.rng.random() < 0.45
+        rec = rand_recipe(ctx.rng, calm)
+        if kind == "r":
+            c = run_recipe(ctx, rec, f"r{idx}_{j}")
+            c.tags.append("gen:calm" if calm else "gen:wild")
+            out.append(c)
+        else:
+            fast = isinstance(rec["default"][1], int) and rec["default"][1] <= 150
+            out.extend(unsub_points(ctx, rec, f"p{idx}_{j}", 300000 if fast else ctx.rng.choice([300000, 1000000, 4000000]), 24))
+    return out
+
+
 def generate(ctx: Ctx) -> List[Case]:
-    cases = []
+    cases: List[Case] = []
     for i, rec in enumerate(CORPUS):
         cases.append(run_recipe(ctx, rec, f"corpus{i}"))
+    for i, rec in enumerate(CORPUS[:6]):
+        cases.extend(unsub_points(ctx, rec, f"cp{i}", 400000, 40))
+    if not ctx.thorough:
+        jobs = [(ctx.seed, ctx.tier, "r", 0, 500), (ctx.seed, ctx.tier, "u", 1, 25)]
+        for job in jobs:
+            cases.extend(_worker(job))
+        return cases
+    import multiprocessing as mp
+    jobs = [(ctx.seed, ctx.tier, "r", i, 450) for i in range(16)] + [(ctx.seed, ctx.tier, "u", 100 + i, 40) for i in range(16)]
+    with mp.get_context("fork").Pool(min(16, mp.cpu_count())) as pool:
+        for chunk in pool.map(_worker, jobs):
+            cases.extend(chunk)
     return cases
 
 
